@@ -37,8 +37,11 @@ def numeric_job(job):
     independent quadrature of Phi(t) = int J(w)/w^2 [coth(w/2T)(1 - cos wt) - i(wt - sin wt)] dw."""
     import oqupy
     from scipy import integrate
-    cutoff_type, temp, zeta, method = job
+    cutoff_type, temp, zeta, method = job[:4]
+    reuse = len(job) > 4 and job[4]
     alpha, wc, dt, n = 0.12, 2.0, 0.2, 4
+    if reuse:
+        wc, dt = 10.0, 0.4          # cutoff frequency x time >> 1: the eta integrand oscillates
     o = np.array([1.0, -0.5, 0.0])
     en = np.array([0.3, -0.2, 0.5])
     cut = {"hard": lambda w: 1.0 * (w < wc), "exponential": lambda w: np.exp(-w / wc),
@@ -56,6 +59,11 @@ def numeric_job(job):
     params = oqupy.TempoParameters(dt=dt, epsrel=1e-10)
     rho0 = probes.generic_rho(3, 5)
     system = oqupy.System(np.diag(en))
+    if reuse:
+        # the same bath object was used before with rough tolerances (a quick look before the production run)
+        rough = oqupy.TempoParameters(dt=dt, epsrel=1e-2)
+        oqupy.Tempo(system, bath, rough, rho0, 0.0).compute(n * dt + dt / 4, progress_type="silent")
+        oqupy.PtTempo(bath, 0.0, n * dt + dt / 4, rough).get_process_tensor(progress_type="silent")
     if method == "tempo":
         dyn = oqupy.Tempo(system, bath, params, rho0, 0.0).compute(n * dt + dt / 4, progress_type="silent")
     else:
@@ -154,8 +162,11 @@ def run(ctx):
             ctx.violation("C01:finite-modes:%s:%s" % (j[4], x["what"]), "%s: %s" % (j, x), {"finite": list(j)})
     njobs = [(ct, t, z, meth) for ct in ("hard", "exponential", "gaussian") for t in (0.0, 0.6)
              for z, meth in ((1.0, "tempo"), (3.0, "pt"))]
+    # ... and with a bath object that was used before with rough tolerances (cutoff x time >> 1)
+    njobs += [(ct, t, 1.0, meth, True) for ct in ("exponential", "gaussian") for t, meth in ((0.0, "tempo"), (0.6, "pt"))]
     for j, mm in zip(njobs, core.pmap(numeric_job, njobs)):
-        ctx.case({"numeric": {"cutoff_type": j[0], "T": j[1], "zeta": j[2], "method": j[3]}}, nontrivial=True)
+        ctx.case({"numeric": {"cutoff_type": j[0], "T": j[1], "zeta": j[2], "method": j[3], "bath_used_before": len(j) > 4}},
+                 nontrivial=True)
         for x in mm:
             ctx.violation("C01:numeric:%s:%s" % (j[0], x["what"]), "%s: %s" % (j, x), {"numeric": list(j)})
     consts = {
